@@ -89,9 +89,18 @@ func drawCfg(r *simkit.Run) cfg {
 	case 3:
 		c.CompactOn, c.Trigger, c.CheckInterval = true, 5, time.Millisecond
 	}
+	if (c.Gate || c.FStall) && c.Workers < c.Slots {
+		// A slot worker parked at a seam is unavailable to the node's other slots;
+		// which slot it picked first follows Go map iteration order inside
+		// multiraft (enqueueTickForOpenSlots), so with fewer workers than slots the
+		// run would not be a function of the tape.
+		c.Workers = c.Slots
+	}
 	c.CampaignHint = tp.Intn(3) != 0
 	c.TransferW = tp.Intn(3)
 	c.CompactW = tp.Intn(3)
+	c.ConfChange = tp.Intn(3) == 1
+	c.OwnPayloads = tp.Intn(2) == 1
 	c.MaxSteps = 250 + c.Ops*28
 	if c.MaxSteps > 1500 {
 		c.MaxSteps = 1500
@@ -106,7 +115,7 @@ func runWorld(t *testing.T, r *simkit.Run) {
 		"partition": c.FPartition, "crash": c.FCrash, "stall": c.FStall, "gate": c.Gate, "db": c.DB, "crash_pct": c.CrashPct, "sm_batch": c.SMBatch,
 		"sm_durable": c.SMDurable, "snap_digest": c.SnapDigest, "election_tick": c.ElectionTick, "heartbeat_tick": c.HeartbeatTick, "prevote": c.PreVote,
 		"checkquorum": c.CheckQuorum, "max_size_per_msg": c.MaxSizePerMsg, "max_inflight": c.MaxInflight, "workers": c.Workers, "max_applying": c.MaxApplying,
-		"compact_trigger": c.Trigger, "campaign_hint": c.CampaignHint}
+		"compact_trigger": c.Trigger, "campaign_hint": c.CampaignHint, "confchange": c.ConfChange, "own_payloads": c.OwnPayloads}
 	var tmpRoot string
 	if c.DB {
 		base := "" // raft snapshot chunk directories are real files (fsync included): prefer a RAM disk
@@ -137,7 +146,7 @@ func runWorld(t *testing.T, r *simkit.Run) {
 		for i := 1; i <= c.N; i++ {
 			n := &node{id: i, reps: map[multiraft.SlotID]*replica{}}
 			for s := 1; s <= c.Slots; s++ {
-				rp := &replica{node: n, slot: multiraft.SlotID(s), sm: &smState{}}
+				rp := &replica{node: n, slot: multiraft.SlotID(s), sm: &smState{}, stored: map[uint64][]string{}}
 				if !c.DB {
 					rp.mem = raftlog.NewMemory()
 				}
@@ -233,9 +242,16 @@ func (w *world) fail(class, sig, detail string) {
 // oracles that need the scheduler's view.
 func (w *world) drain() {
 	w.mu.Lock()
-	events, fails, props, comps, panics := w.events, w.fails, w.propDone, w.compDone, w.panics
-	w.events, w.fails, w.propDone, w.compDone, w.panics = nil, nil, nil, nil, nil
+	events, fails, props, comps, panics, confs := w.events, w.fails, w.propDone, w.compDone, w.panics, w.confDone
+	w.events, w.fails, w.propDone, w.compDone, w.panics, w.confDone = nil, nil, nil, nil, nil, nil
 	w.mu.Unlock()
+	sort.Slice(confs, func(i, j int) bool { return confs[i].id < confs[j].id })
+	for _, cd := range confs {
+		w.r.Logf("  conf#%d n%d/s%d %s n%d -> %s index=%d term=%d", cd.id, cd.node, cd.slot, changeName(cd.change.Type), cd.change.NodeID, errName(cd.err), cd.res.Index, cd.res.Term)
+		if cd.err == nil {
+			w.r.Probe("confchange.applied:" + changeName(cd.change.Type))
+		}
+	}
 	sort.Strings(events)
 	for _, e := range events {
 		w.r.Logf("  %s", e)
@@ -288,6 +304,10 @@ func errName(err error) string {
 		return "busy"
 	case errors.Is(err, context.Canceled):
 		return "ctx-canceled"
+	case errors.Is(err, context.DeadlineExceeded):
+		return "ctx-deadline"
+	case errors.Is(err, multiraft.ErrConfigChangePending):
+		return "config-change-pending"
 	case errors.Is(err, errCrashed):
 		return "crashed"
 	}
@@ -320,8 +340,25 @@ func (w *world) onProposalDone(op *propOp) {
 		w.fail("ack-not-at-index", "nothing-applied", fmt.Sprintf("slot %d: proposal %q on n%d was acknowledged at (index %d, term %d) but no replica has applied that index",
 			op.slot, op.payload, op.node, op.res.Index, op.res.Term))
 	case cr.term != op.res.Term || cr.data != op.payload:
-		w.fail("ack-not-at-index", "", fmt.Sprintf("slot %d: proposal %q on n%d was acknowledged at (index %d, term %d) but the command applied at that index is (term %d %q)",
-			op.slot, op.payload, op.node, op.res.Index, op.res.Term, cr.term, cr.data))
+		// who led the term of the acknowledged entry? A future is meant to be
+		// resolved by the node that appended the entry as leader.
+		sig, who := "", "unknown"
+		if l, seen := m.leaderSeen[op.res.Term]; seen {
+			who = fmt.Sprintf("n%d", l)
+			if l != op.node {
+				sig = "resolved-on-node-that-did-not-lead-the-term"
+			}
+		}
+		// Did the proposer itself once store this payload at the acknowledged index
+		// (its own entry, later replaced by another leader's entry)? Then the future
+		// was tracked correctly and resolved for the wrong term's entry.
+		for _, p := range w.nodes[op.node].reps[op.slot].stored[op.res.Index] {
+			if p == op.payload {
+				sig = "own-entry-at-index-was-replaced"
+			}
+		}
+		w.fail("ack-not-at-index", sig, fmt.Sprintf("slot %d: proposal %q on n%d was acknowledged at (index %d, term %d) but the command applied at that index is (term %d %q); leader of term %d: %s; the payload itself is applied at %v",
+			op.slot, op.payload, op.node, op.res.Index, op.res.Term, cr.term, cr.data, op.res.Term, who, m.payloadIdx[op.payload]))
 	case string(op.res.Data) != "ok:"+op.payload:
 		w.fail("ack-wrong-result", "", fmt.Sprintf("slot %d: proposal %q acknowledged with the apply result %q of another command", op.slot, op.payload, op.res.Data))
 	}
@@ -392,6 +429,7 @@ func (w *world) invariant() {
 
 type pendingEvt struct {
 	at   time.Duration
+	ord  string
 	key  string
 	seq  int
 	msg  *netMsg
@@ -403,7 +441,10 @@ func (w *world) pendingEvents() []pendingEvt {
 	var out []pendingEvt
 	w.mu.Lock()
 	for _, m := range w.inflight {
-		out = append(out, pendingEvt{at: m.sent, key: m.key, seq: m.seq, msg: m})
+		// Messages one slot sends at one instant on one link keep their send order
+		// (seq is deterministic inside one slot worker); everything else is ordered
+		// by content, because arrival order across slots and nodes is not canonical.
+		out = append(out, pendingEvt{at: m.sent, ord: fmt.Sprintf("m n%d>n%d s%d", m.from, m.to, m.slot), key: m.key, seq: m.seq, msg: m})
 	}
 	w.mu.Unlock()
 	for _, p := range w.sw.Pending() {
@@ -411,14 +452,14 @@ func (w *world) pendingEvents() []pendingEvt {
 		if w.nodes[info.node].stalled() {
 			continue
 		}
-		out = append(out, pendingEvt{at: info.at, key: p.Key, seq: p.Seq, park: p})
+		out = append(out, pendingEvt{at: info.at, ord: "p " + p.Key, key: p.Key, seq: p.Seq, park: p})
 	}
 	sort.SliceStable(out, func(i, j int) bool {
 		if out[i].at != out[j].at {
 			return out[i].at < out[j].at
 		}
-		if out[i].key != out[j].key {
-			return out[i].key < out[j].key
+		if out[i].ord != out[j].ord {
+			return out[i].ord < out[j].ord
 		}
 		return out[i].seq < out[j].seq
 	})
@@ -561,6 +602,9 @@ func (w *world) collect() []simkit.Action {
 		}
 		if c.CompactW > 0 && w.compacts < 8 {
 			acts = append(acts, simkit.Action{Prio: 3, Key: "compact", Weight: c.CompactW, Do: w.compact})
+		}
+		if c.ConfChange && w.confChanges < 6 {
+			acts = append(acts, simkit.Action{Prio: 3, Key: "confchange", Weight: 2, Do: w.confChange})
 		}
 	}
 	// time
@@ -825,6 +869,7 @@ func (w *world) finalPhase() {
 	deadline := w.now() + finalElectionTimeouts*electionTO
 	healedAt := w.now()
 	w.finalAcked, w.finalPending = map[multiraft.SlotID]bool{}, map[multiraft.SlotID]bool{}
+	finalTries := map[multiraft.SlotID]int{}
 	converged := false
 	for iter := 0; iter < 60000 && w.now() < deadline; iter++ {
 		idle, ok := w.benignStep()
@@ -837,8 +882,10 @@ func (w *world) finalPhase() {
 		// nothing in flight: one probe proposal per slot once a leader exists, then check convergence
 		all := true
 		for _, m := range w.slots {
-			if !w.finalAcked[m.id] {
+			gaveUp := finalTries[m.id] >= 12 && !w.finalPending[m.id] // e.g. a leader that removed itself drops every proposal
+			if !w.finalAcked[m.id] && !gaveUp {
 				if !w.finalPending[m.id] && w.leaderOf(m.id) != 0 {
+					finalTries[m.id]++
 					w.propose(m.id, true)
 				}
 				all = false
@@ -893,10 +940,12 @@ func (w *world) finalPhase() {
 	}
 	flagLiveness := os.Getenv("RAFTSIM_FLAG_LIVENESS") == "1"
 	leaders := map[multiraft.SlotID]int{}
+	memb := map[multiraft.SlotID]map[int]bool{}
 	topTerm := map[multiraft.SlotID]bool{} // the leader's term is the highest term any replica knows
 	for _, m := range w.slots {
 		l := w.leaderOf(m.id)
 		leaders[m.id] = l
+		memb[m.id] = w.members(m.id)
 		if l == 0 {
 			continue
 		}
@@ -947,6 +996,9 @@ func (w *world) finalPhase() {
 					sig = "follower-paused-in-snapshot-progress"
 				} else if leaders[m.id] == 0 {
 					sig = "no-leader"
+				}
+				if !memb[m.id][i] {
+					continue // removed from the slot's configuration: it is not expected to catch up
 				}
 				if !stuckReported[i] {
 					stuckReported[i] = true
@@ -1081,10 +1133,11 @@ func (w *world) leaderProgress() map[multiraft.SlotID]map[int]string {
 
 // slotConverged: every replica's state machine has reached the highest index any replica applied.
 func (w *world) slotConverged(m *slotModel) bool {
+	mem := w.members(m.id)
 	w.mu.Lock()
 	defer w.mu.Unlock()
 	for i := 1; i <= w.cfg.N; i++ {
-		if w.nodes[i].reps[m.id].sm.last() < m.maxCanon {
+		if mem[i] && w.nodes[i].reps[m.id].sm.last() < m.maxCanon {
 			return false
 		}
 	}
